@@ -62,6 +62,8 @@ func ChildMain(jobFile, outFile string) {
 			r = RestartLoop(j.Seed, j.Prog, j.Prog.Cycles)
 		case "failsub":
 			r = FailSubLoop(j.Seed, j.Prog, j.Prog.Cycles)
+		case "failstart":
+			r = FailedStartLoop(j.Seed, j.Prog, j.Prog.Cycles)
 		case "contend":
 			r = ContendLoop(j.Seed, j.Prog, j.Prog.Cycles)
 		case "window":
@@ -76,7 +78,7 @@ func ChildMain(jobFile, outFile string) {
 			}
 			f.Close()
 		}
-		if j.Mode != "restartloop" && j.Mode != "failsub" && j.Mode != "contend" && len(r.Events) > 0 && len(r.Events) < 4000 {
+		if j.Mode != "restartloop" && j.Mode != "failsub" && j.Mode != "failstart" && j.Mode != "contend" && len(r.Events) > 0 && len(r.Events) < 4000 {
 			w := j.Prog.Workers
 			if w <= 0 {
 				w = 2
@@ -321,7 +323,7 @@ func Run(c *core.Ctx) {
 	// (M) exhaustive model checking of the repaired design, and of the liveness properties
 	mcs := []string{"A", "B"}
 	if c.Thorough() || c.Property == "C03" {
-		mcs = append(mcs, "C", "F", "G")
+		mcs = append(mcs, "C", "F", "G", "H")
 	}
 	for _, k := range mcs {
 		r := core.ModelCheck(c, "MCSched", "MCSched"+k+".cfg", core.TLCOpts{Timeout: 8 * time.Minute})
@@ -456,6 +458,9 @@ func Run(c *core.Ctx) {
 	}
 	for i := 0; i < c.Pick(4, 16); i++ {
 		add(Job{Mode: "failsub", Seed: c.Seed*1000 + 950 + int64(i), Prog: Program{Workers: []int{2, 4, 1, 3}[i%4], Cycles: c.Pick(12, 40)}, Src: "failing-subscribe"})
+	}
+	for i := 0; i < c.Pick(2, 8); i++ {
+		add(Job{Mode: "failstart", Seed: c.Seed*1000 + 970 + int64(i), Prog: Program{Workers: []int{2, 4}[i%2], Cycles: c.Pick(6, 20)}, Src: "failed-start"})
 	}
 	for i := 0; i < c.Pick(6, 24); i++ {
 		add(Job{Mode: "contend", Seed: c.Seed*1000 + 970 + int64(i), Prog: Program{Workers: []int{2, 4, 3, 8}[i%4], Cycles: c.Pick(4000, 20000)}, Src: "contended-groups"})
